@@ -9,6 +9,8 @@ package main
 import (
 	"bytes"
 	"fmt"
+	"git.torproject.org/pluggable-transports/snowflake.git/v2/common/ipsetsink"
+	"git.torproject.org/pluggable-transports/snowflake.git/v2/common/ipsetsink/sinkcluster"
 	"log"
 	"regexp"
 	"sort"
@@ -459,5 +461,45 @@ func init() {
 			x.Outcome("ticker")
 		},
 		Check: func(x *vs.X) {},
+	})
+}
+
+// c20-journal: several proxy polls at the same instant on a broker that records distinct addresses in
+// the journal (ClusterWriter + IPSetSink have no locking of their own; the broker's metrics lock is
+// what serialises them).  Race mode is what matters; in normal mode the journal is only required to
+// hold one chunk per due interval.
+type c20MemFile struct{ bytes.Buffer }
+
+func (*c20MemFile) Sync() error { return nil }
+
+func init() {
+	harnesses = append(harnesses, &vs.Harness{
+		Name:     "c20-journal",
+		Horizon:  time.Hour,
+		MaxSteps: 100000,
+		Body: func(x *vs.X) {
+			n := cfgInt(x, "polls", 3)
+			keepMetricsOrder = true
+			w := newWorld()
+			keepMetricsOrder = false
+			x.User = w
+			f := &c20MemFile{}
+			// interval 0: every recorded address finds a chunk due, so that the roll-over sequence
+			// (dump, write, reset, add) of concurrent polls overlaps
+			w.ctx.metrics.SetIPAddressRecorder(sinkcluster.NewClusterWriter(f, 0, ipsetsink.NewIPSetSink("verif-key")))
+			for i := 0; i < n; i++ {
+				p := w.addProxy(NATUnrestricted, "standalone", 0, 0, ansNever)
+				p.remote = fmt.Sprintf("10.1.%d.1:4000", i)
+			}
+			w.start()
+			x.Outcome(fmt.Sprintf("%d concurrent polls with a journal", n))
+		},
+		Check: func(x *vs.X) {
+			for _, t := range x.Threads() {
+				if t.Panic != "" {
+					x.Fail("no-panic", "panic:"+firstLine(t.Panic), "%s", t.PanicAt)
+				}
+			}
+		},
 	})
 }
